@@ -455,11 +455,34 @@ func ruleC11Concurrency(c *Ctx) {
 	for _, t := range [][]string{
 		{"pkg/fs", "File", "readOpReader", "readOpWriter", "writeBuf", "cleanWriteBuf", "info"},
 		{"pkg/fs", "FileInfo", "size", "name"},
-		{"pkg/tape", "TapeManager", "reader", "readerIsRegular", "closer", "overwrote"},
 	} {
 		for _, fn := range t[2:] {
 			if fv := c.field(t[0], t[1], fn); fv != nil {
 				k.tracked[fv] = true
+			}
+		}
+	}
+	// the tape manager's mutable state: every field that is assigned outside a composite literal (whatever the
+	// fields are called or how they are grouped), except the mutexes themselves
+	if tm := c.namedType("pkg/tape", "TapeManager"); tm != nil {
+		if st, ok := tm.Underlying().(*types.Struct); ok {
+			nt := 0
+			for i := 0; i < st.NumFields(); i++ {
+				fv := st.Field(i)
+				if strings.HasPrefix(fv.Type().String(), "sync.") {
+					continue
+				}
+				for _, sto := range c.storesTo(fv) {
+					if _, isKV := sto.Node.(*ast.KeyValueExpr); !isKV {
+						k.tracked[fv] = true
+					}
+				}
+				if k.tracked[fv] {
+					nt++
+				}
+			}
+			if nt < 2 {
+				c.unresolved("only %d mutable fields of tape.TapeManager found (expected the reader state, the closer and the overwrite marker)", nt)
 			}
 		}
 	}
